@@ -51,6 +51,9 @@ pub struct Script {
     /// of `repeat_cap` bytes after which reads fail and `budget_exceeded` is set.
     pub repeat: Option<Arc<Vec<u8>>>,
     pub repeat_cap: usize,
+    /// The peer goes away while the client writes: once this many bytes have been accepted every
+    /// further write fails with BrokenPipe (None: never).
+    pub write_fail_at: Option<usize>,
 }
 
 impl Script {
@@ -63,6 +66,7 @@ impl Script {
             write_max: None,
             repeat: None,
             repeat_cap: 0,
+            write_fail_at: None,
         }
     }
 }
@@ -219,10 +223,16 @@ impl Read for Scripted {
 impl Write for Scripted {
     fn write(&mut self, buf: &[u8]) -> io::Result<usize> {
         let mut s = self.shared.lock().unwrap();
-        let n = match self.script.write_max {
+        let mut n = match self.script.write_max {
             Some(m) => buf.len().min(m.max(1)),
             None => buf.len(),
         };
+        if let Some(limit) = self.script.write_fail_at {
+            if s.written.len() >= limit && !buf.is_empty() {
+                return Err(io::ErrorKind::BrokenPipe.into());
+            }
+            n = n.min(limit - s.written.len());
+        }
         s.written.extend_from_slice(&buf[..n]);
         if self.log_events {
             s.events.push(Event::W(n));
